@@ -4,7 +4,7 @@
 From Coq Require Import List NArith ZArith Bool Lia Arith.
 From Coq Require Import ZifyBool ZifyNat ZifyN.
 From Wpull Require Import Model.UrlLib Model.Url Proofs.UrlPeProofs Proofs.UrlStrProofs Proofs.UrlPathProofs
-  Proofs.UrlTotalProofs Proofs.UrlHostProofs Proofs.UrlNormProofs Proofs.UrlEquivProofs Proofs.UrlEquiv2Proofs.
+  Proofs.UrlTotalProofs Proofs.UrlHostProofs Proofs.UrlNormProofs Proofs.UrlEquivProofs Proofs.UrlEquiv2Proofs Proofs.UrlFragProofs.
 Import ListNotations.
 Open Scope N_scope.
 
@@ -333,5 +333,54 @@ Proof.
   destruct Hs as [_ [_ [_ [_ [_ Hd]]]]].
   exact (parse_network_host_case enc idna_o ipv6_o int_o unq_o url url' sc dport u hn hn' pp R
            Hd Hu N1 N2 Hl Hp h47 h63 h35 h64 h47' h63' h35' h64' HR).
+Qed.
+(* "sch://A R" and "sch://A:<default port> R" *)
+Theorem parse_url_default_port sch sc dport A R h :
+  scheme_text sch sc dport ->
+  memb 47 A = false -> memb 63 A = false -> memb 35 A = false -> rest_ok R ->
+  parse_host idna_o ipv6_o int_o (snd (parse_authority A)) = Ok (h, None) ->
+  let rem := [47; 47] ++ A ++ R in
+  let rem' := [47; 47] ++ (A ++ 58 :: dec_of_N dport) ++ R in
+  plain_text (sch ++ 58 :: rem) -> plain_text (sch ++ 58 :: rem') ->
+  match parse (sch ++ 58 :: rem), parse (sch ++ 58 :: rem') with
+  | Ok i, Ok i' => url_of enc i = url_of enc i' /\ u_scheme i = u_scheme i' /\ u_hostname i = u_hostname i' /\
+                   u_port i = u_port i' /\ u_path i = u_path i' /\ u_query i = u_query i'
+  | Err k, Err k' => k = k'
+  | _, _ => False
+  end.
+Proof.
+  intros Hs A47 A63 A35 HR Hh rem rem' P1 P2.
+  apply (parse_lift (fun r r' => match r, r' with
+                                 | Ok i, Ok i' => url_of enc i = url_of enc i' /\ u_scheme i = u_scheme i' /\ u_hostname i = u_hostname i' /\
+                                                  u_port i = u_port i' /\ u_path i = u_path i' /\ u_query i = u_query i'
+                                 | Err k, Err k' => k = k'
+                                 | _, _ => False
+                                 end) sch sc dport rem rem' Hs P1 P2).
+  intros url url'. destruct Hs as [_ [_ [_ [_ [_ Hd]]]]].
+  exact (parse_network_default_port enc idna_o ipv6_o int_o unq_o url url' sc dport A R h Hd A47 A63 A35 HR Hh).
+Qed.
+
+(* "sch:P#f" and "sch:P" *)
+Theorem parse_url_fragment sch sc dport (P f nf : str) :
+  scheme_text sch sc dport -> memb 35 P = false -> enc [] = Some [] -> normalize_fragment enc f = Ok nf ->
+  plain_text (sch ++ 58 :: P ++ 35 :: f) -> plain_text (sch ++ 58 :: P) ->
+  match parse (sch ++ 58 :: P ++ 35 :: f), parse (sch ++ 58 :: P) with
+  | Ok i, Ok i' => url_of enc i = url_of enc i' /\ u_scheme i = u_scheme i' /\ u_hostname i = u_hostname i' /\
+                   u_port i = u_port i' /\ u_path i = u_path i' /\ u_query i = u_query i' /\
+                   u_fragment i = nf /\ u_fragment i' = []
+  | Err k, Err k' => k = k'
+  | _, _ => False
+  end.
+Proof.
+  intros Hs P35 He Hf P1 P2.
+  apply (parse_lift (fun r r' => match r, r' with
+                                 | Ok i, Ok i' => url_of enc i = url_of enc i' /\ u_scheme i = u_scheme i' /\ u_hostname i = u_hostname i' /\
+                                                  u_port i = u_port i' /\ u_path i = u_path i' /\ u_query i = u_query i' /\
+                                                  u_fragment i = nf /\ u_fragment i' = []
+                                 | Err k, Err k' => k = k'
+                                 | _, _ => False
+                                 end) sch sc dport (P ++ 35 :: f) P Hs P1 P2).
+  intros url url'. destruct Hs as [_ [_ [_ [_ [_ Hd]]]]].
+  exact (parse_network_fragment enc idna_o ipv6_o int_o unq_o url url' sc dport P f nf Hd P35 He Hf).
 Qed.
 End WholeUrl.
